@@ -402,6 +402,7 @@ func runCheck(id, tier string, updateBaseline bool, only string) int {
 		"append is modelled as always reallocating (no aliasing between the result and the original backing array)",
 		"a typed nil pointer stored in an interface is treated as a nil interface",
 		"external library functions without a contract modify rqlite objects only through pointer/interface/func arguments (otherwise only non-rqlite heap is havocked); raft, database/sql, net/http, sqlite3, bbolt calls havoc the whole heap",
+		"fields of library objects and library package variables are outside assigns frames: not frame-checked in a function with an assigns clause, and havocked by its callers at the call",
 		"calls through function values have no ghost-state effect",
 		"termination is not proved")
 	for _, n := range cfg.NotDecided {
